@@ -41,6 +41,7 @@ type pStore struct {
 	Deref    bool   `json:"deref"`    // the path from the root passes a pointer, slice or map
 	ObjType  string `json:"obj_type"` // static type of the object that is written (struct / slice / map / pointee)
 	Text     string `json:"text"`
+	Path     string `json:"path"` // the assigned expression with its root replaced by the root's kind: "recv-ptr.arch", "*recv-ptr", "local[·]"
 }
 
 type pCall struct {
@@ -208,7 +209,7 @@ func (w *purityWalker) lhs(e ast.Expr, stmt ast.Node) {
 	}
 done:
 	root := rootIdent(e)
-	st := pStore{Func: w.f.key, Pos: posOf(w.f.pkg, stmt), Deref: deref, ObjType: objType, Text: srcText(w.f.pkg, stmt)}
+	st := pStore{Func: w.f.key, Pos: posOf(w.f.pkg, stmt), Deref: deref, ObjType: objType, Text: srcText(w.f.pkg, stmt), Path: w.canon(e)}
 	if root == nil {
 		st.RootKind, st.Root = "complex", "?"
 		w.stores = append(w.stores, st)
@@ -245,6 +246,41 @@ done:
 		}
 	}
 	w.stores = append(w.stores, st)
+}
+
+// canon renders an addressable expression independently of how its variables are called: the root
+// identifier becomes its kind (receiver, parameter, local, or the qualified name of a package-level
+// variable), selectors keep their field names, index expressions lose their index.
+func (w *purityWalker) canon(e ast.Expr) string {
+	info := w.f.pkg.TypesInfo
+	switch x := e.(type) {
+	case *ast.ParenExpr:
+		return w.canon(x.X)
+	case *ast.StarExpr:
+		return "*" + w.canon(x.X)
+	case *ast.SelectorExpr:
+		return w.canon(x.X) + "." + x.Sel.Name
+	case *ast.IndexExpr:
+		return w.canon(x.X) + "[·]"
+	case *ast.Ident:
+		obj := info.Uses[x]
+		if obj == nil {
+			obj = info.Defs[x]
+		}
+		v, isVar := obj.(*types.Var)
+		switch {
+		case isVar && v.Pkg() != nil && v.Parent() == v.Pkg().Scope():
+			return w.varName(v)
+		case obj != nil && w.recv[obj] != "":
+			return w.recv[obj]
+		case obj != nil && w.params[obj]:
+			return "param"
+		case isVar:
+			return "local"
+		}
+		return x.Name
+	}
+	return "?"
 }
 
 func (w *purityWalker) varName(v *types.Var) string {
@@ -310,7 +346,7 @@ func (w *purityWalker) walk() {
 			}
 		case *ast.RangeStmt:
 			if typeKind(info.TypeOf(x.X)) == "map" {
-				w.mapRng = append(w.mapRng, pSite{w.f.key, posOf(w.f.pkg, x), exprText(x.X)})
+				w.mapRng = append(w.mapRng, pSite{w.f.key, posOf(w.f.pkg, x), w.canon(x.X)})
 			}
 			if x.Tok == token.ASSIGN {
 				for _, e := range []ast.Expr{x.Key, x.Value} {
@@ -539,7 +575,7 @@ func genPurity(t *target, facts map[string]interface{}) error {
 		"    Syntactic effect summary of the functions reachable in the static call graph from the compiler and\n" +
 		"    the text conversions (C13). -/\n\nnamespace Gen.Purity\n\n")
 	b.WriteString("structure Site where\n  fn : String\n  pos : String\n  text : String\nderiving Repr, DecidableEq\n\n")
-	b.WriteString("structure Store where\n  fn : String\n  pos : String\n  rootKind : String\n  root : String\n  deref : Bool\n  objType : String\n  text : String\nderiving Repr, DecidableEq\n\n")
+	b.WriteString("structure Store where\n  fn : String\n  pos : String\n  rootKind : String\n  root : String\n  deref : Bool\n  objType : String\n  text : String\n  path : String\nderiving Repr, DecidableEq\n\n")
 	b.WriteString("structure ExtCall where\n  fn : String\n  pos : String\n  callee : String\n  dstType : String\n  dstRoot : String\n  dstFresh : Bool\n  text : String\nderiving Repr, DecidableEq\n\n")
 
 	fmt.Fprintf(&b, "def roots : List String := %s\n\n", leanStrList(purityRoots))
@@ -609,8 +645,8 @@ func genPurity(t *target, facts map[string]interface{}) error {
 			if i == len(xs)-1 {
 				sep = ""
 			}
-			fmt.Fprintf(&b, "  ⟨%s, %s, %s, %s, %s, %s, %s⟩%s\n", leanString(x.Func), leanString(x.Pos), leanString(x.RootKind), leanString(x.Root),
-				leanBool(x.Deref), leanString(x.ObjType), leanString(x.Text), sep)
+			fmt.Fprintf(&b, "  ⟨%s, %s, %s, %s, %s, %s, %s, %s⟩%s\n", leanString(x.Func), leanString(x.Pos), leanString(x.RootKind), leanString(x.Root),
+				leanBool(x.Deref), leanString(x.ObjType), leanString(x.Text), leanString(x.Path), sep)
 		}
 		b.WriteString("]\n\n")
 	}
